@@ -150,6 +150,7 @@ PROPS["C20"] = dict(
           ("fam_chain", "gen_free", 120, 5000), ("fam_chain", "gen_boundary", 60, 3000),
           ("fam_huff", "gen_edge", 30, 1500), ("fam_huff", "gen_overflow", 6, 30),
           ("fam_models", "gen_malformed", 150, 8000), ("fam_models", "gen_valid", 100, 5000),
+          ("fam_models", "gen_conv", 120, 5000),
           ("fam_floatq", "gen_malformed", 80, 4000), ("fam_floatq", "gen_f9", 40, 2000),
           ("fam_leaky", "gen_step", 50, 4000), ("fam_leaky", "gen_f13", 15, 1000), ("fam_leaky", "gen_f16", 40, 3000),
           ("fam_leaky", "gen_new", 40, 3000)],
@@ -171,8 +172,9 @@ PROPS["C20"] = dict(
                "unsafe-precondition checks) in a child process; a process abort, an arithmetic panic or a hang anywhere "
                "is a violation.",
     level_note="The model cannot exhibit compiled-code behaviour (aliasing, uninitialised memory, what LLVM does after UB); "
-               "everything that is not an index / non-zero / unreachable / overflow obligation is outside. AddressSanitizer "
-               "/ Miri are not part of the check. Known classes (printed as KNOWN-FINDING, see known_findings.txt): "
+               "everything that is not an index / non-zero / unreachable / overflow obligation is outside. The thorough "
+               "tier adds an AddressSanitizer build of harness + crate (nightly, release profile, pre-built std); Miri "
+               "is not part of the check. Known classes (printed as KNOWN-FINDING, see known_findings.txt): "
                "cursor_buf_mut_shrink (witness theorem C20_cursor_buf_mut_refuted), huffman_weight_sum_overflow. "
                "Flocq-based theorems use the four allow-listed standard-library axioms.",
     technique="Coq proof of the preconditions of every unsafe site in the models + debug-build correspondence runs",
